@@ -12,7 +12,7 @@
 
    External numerics: Rotation.from_euler('z', -(90 + degrees(arctan2(vy, vx))), degrees=True).as_matrix()
    enters as the section variable [zrot] giving the (cos, sin) entries of that matrix; the proofs state
-   what they need of it as a hypothesis, the runner instantiates it with (-vy/r, -vx/r). *)
+   what they need of it as a hypothesis, the runner instantiates it with [zrot_closed] = (-vy/r, -vx/r). *)
 From Coq Require Import List ZArith Bool Arith.
 Require Import Num C13_Normalize.
 Import ListNotations.
@@ -96,6 +96,8 @@ End C13Norm3d.
 Arguments V3 {O}. Arguments vx {O}. Arguments vy {O}. Arguments vz {O}.
 Arguments mkp3 {O}. Arguments m3 {O}. Arguments c3 {O}.
 
-(* the instance the runner executes: (cos, sin) of -(90deg + atan2(vy, vx)) = (-vy / r, -vx / r) *)
+(* the instance the runner executes: (cos, sin) of -(90deg + atan2(y, x)) = (-y / r, -x / r); at the origin
+   np.arctan2(0, 0) = 0, so the angle is -90deg and (cos, sin) = (0, -1) *)
 Definition zrot_closed (O : ops) (x y : T O) : T O * T O :=
-  let r := sqrt O (add O (mul O x x) (mul O y y)) in (div O (opp O y) r, div O (opp O x) r).
+  let r := sqrt O (add O (mul O x x) (mul O y y)) in
+  if eqb O r (zero O) then (zero O, opp O (one O)) else (div O (opp O y) r, div O (opp O x) r).
